@@ -512,6 +512,7 @@ class Checker:
         return {("yaml.roundtrip", "bigint-as-string"): FID_YAML_BIG,
                 ("yamlin.wellformed", "yaml-number-literal"): FID_YAML_NUM,
                 ("yaml.read", "indent-block-scalar"): FID_YAML_IND,
+                ("yaml.roundtrip", "indent-block-scalar"): FID_YAML_IND,
                 ("yaml.read", "tab-leading-block-scalar"): FID_YAML_TAB}.get((f["k"], f.get("dev")))
 
     def report_finding(self, case, rec, v):
@@ -525,7 +526,7 @@ class Checker:
         if fid == FID_YAML_TAB:
             what = "--yaml-output writes a multi-line string that starts with a TAB as a block scalar that --yaml-input rejects: %r" % bytes(rec["yaml"].get("text", [])[:120]).decode("latin1")
         elif fid == FID_YAML_IND:
-            what = "--yaml-output --indent %s writes a block scalar with an indentation indicator that --yaml-input rejects: %r" % (case.get("yind"), bytes(rec["yaml"].get("text", [])[:120]).decode("latin1"))
+            what = "--yaml-output --indent %s writes a block scalar with an indentation indicator that --yaml-input rejects or reads as another string: %r" % (case.get("yind"), bytes(rec["yaml"].get("text", [])[:120]).decode("latin1"))
         elif fid == FID_YAML_BIG:
             what = "--yaml-output writes the *big.Int %s as a quoted string; --yaml-input reads a string back" % show(case["vs"][0], 60)
         else:
